@@ -17,6 +17,19 @@ from . import pybind_common
 from ..gen import scopes
 
 
+LAYOUT_ZOO = [
+    # blocks that start with a decorated definition reading what the block header has just bound
+    'def deco(x):\n    return lambda f: f\ndef f(a, b):\n    @deco(a)\n    def g(c=b):\n        return c\n    return g, a\n'
+    'try:\n    pass\nexcept Exception as e:\n    @deco(e)\n    class K:\n        pass\n    print(e)\n'
+    'for i in range(3):\n    @deco(i)\n    @deco(f)\n    def h(j=i):\n        return j\n    print(h, i)\n'
+    'with open(f) as fh:\n    @deco(fh)\n    async def co(k):\n        return k, fh\n'
+    'class C:\n    @deco(f)\n    def m(self, x):\n        @deco(x)\n        def inner():\n            return self, x\n        return inner\n',
+    # values, iterables and context expressions that span lines, targets read on the line they are bound on
+    'def f(items, key):\n    out = [key(i) for i in items if i]\n    total = sum(out, key(0))\n    while (n := len(out)) > total: out.pop(); total = n\n'
+    '    with open(key(n)) as a, open(key(a)) as b:\n        res = (a, b, total, n)\n    for x, (y, z) in zip(out, res): w = x; print(w, y, z)\n    return res, out\n',
+]
+
+
 def run_workers(jobs):
     n = core.NCPU
     chunks = [jobs[i::n] for i in range(n)]
@@ -61,6 +74,11 @@ def run(tier, replay=None):
                 vs = rng.sample(vectors, per - 2) + rng.sample(wild, 2)
                 jobs.append({'id': len(jobs), 'source': c['source'], 'filename': '/nonexistent-verif-root/p%d.py' % c['id'],
                              'vectors': vs, 'seeds': [rng.randrange(1 << 30) for _ in vs], 'unparse': True, 'kind': 'generated'})
+            # hand-written sources around visibility positions that depend on where a block starts: every one under many vectors
+            for zi, src in enumerate(LAYOUT_ZOO):
+                vs = rng.sample([v for v in vectors if v['cont']], 500 if thorough else 90) + rng.sample(vectors, 200 if thorough else 40)
+                jobs.append({'id': len(jobs), 'source': src, 'filename': '/nonexistent-verif-root/z%d.py' % zi,
+                             'vectors': vs, 'seeds': [rng.randrange(1 << 30) for _ in vs], 'unparse': True, 'kind': 'zoo'})
             for mi, src in enumerate(scopes.gen_modules(seed * 13 + 1, 1200 if thorough else 120)):
                 vs = rng.sample(vectors, per - 2) + rng.sample(wild, 2)
                 jobs.append({'id': len(jobs), 'source': src, 'filename': '/nonexistent-verif-root/s%d.py' % mi,
